@@ -413,9 +413,70 @@ def rule_r4(prog, res) -> None:
     shared_rule(res, c05.rule_r5, "C05", "C05.R5", "C10.R4")
 
 
+def rule_r5(prog, res) -> None:
+    """no hand-written range test against the outer bin edges: which of `<` / `<=` is right depends on the closed side,
+    so an ordering comparison with edges[0] / edges[-1] (or zmin / zmax of a binning) must itself depend on Binning.closed;
+    the library's bin assignment (digitize + exact index filter, R1) already decides membership"""
+    n = 0
+    for fi in prog.funcs:
+        if not fi.module.name.startswith(("yaw.catalog", "yaw.redshifts", "yaw.correlation", "yaw.binning")):
+            continue
+        pm = None
+        for x in walk_no_nested(fi.node):
+            if not (isinstance(x, ast.Compare) and any(isinstance(o, (ast.Lt, ast.LtE, ast.Gt, ast.GtE)) for o in x.ops)):
+                continue
+            sides = [x.left, *x.comparators]
+
+            def outer_edge(e) -> bool:
+                if isinstance(e, ast.Subscript) and isinstance(e.value, ast.Attribute) and e.value.attr == "edges":
+                    try:
+                        return ceval(e.slice, {}) in (0, -1)
+                    except Unknown:
+                        return False
+                if isinstance(e, ast.Call) and isinstance(e.func, ast.Attribute) and e.func.attr in ("min", "max") and isinstance(e.func.value, ast.Attribute) and e.func.value.attr == "edges":
+                    return True
+                if isinstance(e, ast.Name):
+                    v = [d for d in all_def_values(fi.node, e.id) if d is not None]
+                    return len(v) == 1 and outer_edge(v[0])
+                return False
+
+            if not any(outer_edge(e) for e in sides):
+                continue
+            others = [e for e in sides if not outer_edge(e)]
+            if all(isinstance(e, ast.Constant) for e in others):
+                continue  # validation of the edges themselves
+            n += 1
+            res.touch(fi)
+            pm = pm or parents_map(fi.node)
+            cur, aware = x, False
+            while id(cur) in pm and not isinstance(cur, ast.stmt):
+                cur = pm[id(cur)]
+            aware = any(isinstance(y, ast.Attribute) and y.attr == "closed" for y in ast.walk(cur)) or depends_on(fi.node, cur.value if hasattr(cur, "value") and cur.value is not None else x, lambda y: isinstance(y, ast.Attribute) and y.attr == "closed")
+            guards_closed = False
+            if not aware:
+                cfg = cfg_of(fi.node)
+                for nd in cfg.node_containing(x):
+                    if any(any(isinstance(y, ast.Attribute) and y.attr == "closed" for y in ast.walk(t)) for t, _ in cfg.guards(nd)):
+                        guards_closed = True
+            if aware or guards_closed:
+                res.ok("C10.R5", res.site(fi, unparse(x)[:50]), "range test against an outer edge depends on the closed side")
+            else:
+                res.violation(
+                    "C10.R5",
+                    fi,
+                    x,
+                    f"`{unparse(x)[:70]}` tests values against an outer bin edge with a fixed strictness: for the other closed side an object exactly on that edge is dropped (or kept) although the binning "
+                    "contains (excludes) it",
+                    key_extra=f"outer-edge-compare-{fi.qualname}",
+                )
+    if n == 0:
+        res.ok("C10.R5", "no manual range tests", "no ordering comparison against an outer bin edge outside the bin-assignment sites", nontrivial=False)
+
+
 RULES = [
     ("C10.R1", rule_r1, QUICK),
     ("C10.R2", rule_r2, QUICK),
     ("C10.R3", rule_r3, QUICK),
     ("C10.R4", rule_r4, QUICK),
+    ("C10.R5", rule_r5, QUICK),
 ]
